@@ -57,6 +57,7 @@ def RelT (c : PState) : R1 → R0 → Prop
 def totalBody : Expr → Bool
   | .rep _ => true
   | .optChoice _ true => true
+  | .skipUntil _ => true
   | _ => false
 
 structure Good (r1 : Sem1) (r0 : Sem0) : Prop where
@@ -908,6 +909,7 @@ theorem step_good {r1 : Sem1} {r0 : Sem0} (hs : SkipTotal g) (k : Nat) (h : Good
       | true =>
         simp only [L1.step, L1.optMatch]
         by_cases hemp : alts.isEmpty = true <;> simp [hemp]
+    | skipUntil subs => simp [L1.step]
     | _ => simp [totalBody] at ht
 
 /-! ### all fuel -/
